@@ -297,9 +297,56 @@ def consensus_lane(st, rng, n):
         if r1 != ref.merkle_root(ids):
             st.v("header-commitment-is-not-the-merkle-root-of-the-ids", "calc_merkle_root_hash differs from the fold of the ids (first call)",
                  {"list": [x.hex() for x in ids]})
-        mode = rng.choice(["substitute", "swap", "rotate"])
+        mode = rng.choice(["substitute", "swap", "rotate", "one-field", "one-field", "one-field"])
         ed = list(txs)
-        if mode == "substitute":
+        if mode == "one-field":
+            # the nearest neighbour of a list: ONE transaction (the reward transaction included) replaced by a copy that differs
+            # in exactly one field -- the height or the data in a reward's input, an input's index, one bit of a referenced id, one
+            # byte of a signature, an output's value or key -- and therefore has another id
+            import skepticoin.signing as sg
+            if rng.random() < 0.5:
+                cbd = sg.CoinbaseData(rng.randrange(1, 1 << 20), objgen.rb(rng, rng.choice([0, 3, 20])))
+                ed[0] = dt.Transaction([dt.Input(dt.OutputReference(b"\x00" * 32, 0), cbd)],
+                                       [dt.Output(rng.randrange(1, 1 << 40), g.public_key(rng))])
+                txs = list(ed)
+                ids = [t.hash() for t in txs]
+                r1 = cons.calc_merkle_root_hash(txs)
+                pos = 0
+            else:
+                pos = rng.randrange(k)
+            t = ed[pos]
+            ins, outs = list(t.inputs), list(t.outputs)
+            what = rng.choice(["height", "data", "index", "ref-bit", "signature", "value", "key"])
+            if not ins:
+                what = "value"
+            i0 = ins[0] if ins else None
+            if what in ("height", "data") and isinstance(i0.signature, sg.CoinbaseData):
+                cd = i0.signature
+                other = cd.signature + b"\x01" if len(cd.signature) < 200 else cd.signature[:-1] + bytes([cd.signature[-1] ^ 1])
+                ins[0] = dt.Input(i0.output_reference, sg.CoinbaseData(cd.height + 1, cd.signature) if what == "height"
+                                  else sg.CoinbaseData(cd.height, other))
+            elif what == "index":
+                ins[0] = dt.Input(dt.OutputReference(i0.output_reference.hash, (i0.output_reference.index + 1) & 0xFFFFFFFF), i0.signature)
+            elif what == "ref-bit":
+                hb = bytearray(i0.output_reference.hash)
+                hb[rng.randrange(32)] ^= 1 << rng.randrange(8)
+                ins[0] = dt.Input(dt.OutputReference(bytes(hb), i0.output_reference.index), i0.signature)
+            elif what == "signature" and isinstance(i0.signature, sg.SECP256k1Signature):
+                sb = bytearray(i0.signature.signature)
+                sb[rng.randrange(len(sb))] ^= 1
+                ins[0] = dt.Input(i0.output_reference, sg.SECP256k1Signature(bytes(sb)))
+            elif outs:
+                o0 = outs[0]
+                outs[0] = dt.Output(o0.value + 1, o0.public_key) if what != "key" else dt.Output(o0.value, g.public_key(rng))
+            else:
+                continue
+            try:
+                ed[pos] = dt.Transaction(ins, outs)
+                ed[pos].serialize()
+            except Exception:
+                continue
+            mode = "one-field:" + what
+        elif mode == "substitute":
             ed[rng.randrange(1, k)] = g.transaction(rng)
         elif mode == "swap" and k >= 3:
             i, j = rng.sample(range(1, k), 2)
@@ -315,8 +362,8 @@ def consensus_lane(st, rng, n):
         st.digests.add(digest(b"".join(ids), b"".join(ids2), "cons"))
         w = {"list": [x.hex() for x in ids], "edited": [x.hex() for x in ids2], "edit": "consensus-" + mode, "lane": "consensus"}
         if r2 == r1:
-            st.v("different-lists-same-root:consensus-" + mode, "header commitment unchanged after %s of a non-reward transaction "
-                 "(same reward transaction, same length, computed right after the original list)" % mode, w)
+            st.v("different-lists-same-root:consensus-" + mode.split(":")[0], "header commitment unchanged after %s of a transaction "
+                 "(same length, computed right after the original list)" % mode, w)
         if r2 != ref.merkle_root(ids2):
             st.v("header-commitment-is-not-the-merkle-root-of-the-ids", "calc_merkle_root_hash of the edited list differs from the "
                  "fold of its ids (computed right after the original list)", w)
